@@ -15,7 +15,7 @@ pub fn def() -> PropDef {
 }
 
 fn gamma() -> Gamma {
-    Gamma { seps: seps(), algs: algs_default(), spls: vec![Spl::None, Spl::Hyphen], bws: vec![true, false], indents: vec![("", ""), (">", ""), ("", "> "), ("\u{4f60}", ">")], crlf: vec![false, true] }
+    Gamma { seps: seps(), algs: algs_default(), spls: vec![Spl::None, Spl::Hyphen], bws: vec![true, false], indents: vec![("", ""), (">", ""), ("", "> "), ("\u{4f60}", ">"), ("\u{200b}", "\x1b[1m")], crlf: vec![false, true] }
 }
 
 fn run(r: &mut Run) -> Result<(), MachineryError> {
